@@ -10,9 +10,9 @@
    shape is appended to a data set that holds analog data (C05_frame_append_preserves_the_agreement) or points only
    (C05_frame_append_points_only), or REPLACES any stored frame, frame 0 included (C05_frame_replace_preserves_the_agreement;
    or extends the data set beyond the count — every index at once: C05_frame_any_index; the general form is
-   C05_frame_call_general), and by induction over the calls for a whole recording of appended frames (C05_recording_session); and c3d::parameter on
-   any other group keeps it (C05_parameter_elsewhere).  NOT yet proved: the whole predicate for the first frame of an empty data set, for extensions of a
-   points-only data set, and for the column, declare and parameter calls: decided by the check. *)
+   C05_frame_call_general), and by induction over the calls for a whole recording of appended frames (C05_recording_session), also when it starts from
+   the declared, still empty object (C05_recording_from_empty); and c3d::parameter on
+   any other group keeps it (C05_parameter_elsewhere).  NOT yet proved: the whole predicate for the first frame and for extensions of a points-only data set, and for the column, declare and parameter calls: decided by the check. *)
 From EZ Require Import Base Types Api Proofs_Param Proofs_Guards Spec_Inv Proofs_Inv Proofs_Header Spec_Typed Proofs_Updaters Proofs_ApiSafe Proofs_InvFrame Proofs_InvParam Float32 Run.
 Local Open Scope N_scope.
 
@@ -233,6 +233,20 @@ Theorem C05_parameter_elsewhere : forall f_key f_tosize f_div gname p s s',
 Proof. exact parameter_elsewhere_keeps_inv. Qed.
 Print Assumptions C05_parameter_elsewhere.
 
+(* FROM THE DECLARED, STILL EMPTY OBJECT TO THE END OF THE RECORDING: points and channels declared, rates set (the header
+   then announces at least one sub-frame), no frame yet; every frame of the announced shape appended in turn *)
+Theorem C05_recording_from_empty : forall f_key f_tosize f_div f_is_zero,
+  (forall x e, f_key x <> Throw e) -> (forall x e, f_tosize x <> Throw e) ->
+  forall f fs s s' a,
+  Inv s -> MT (groups s) -> frames s = [] ->
+  lk_int0 (groups s) nm_ANALOG nm_USED = Some a -> a <> 0 -> 1 <= h_byframe (hdr s) ->
+  Forall (announced s) (f :: fs) ->
+  1 + nlen fs < 2147483648 -> nlen (fr_pts f) < 2147483648 -> a < 2147483648 -> a * h_byframe (hdr s) < two64 ->
+  run_frames f_key f_tosize f_div f_is_zero (f :: fs) s = ROk tt s' ->
+  Inv s' /\ frames s' = f :: fs.
+Proof. exact recording_from_empty_keeps_inv. Qed.
+Print Assumptions C05_recording_from_empty.
+
 (* the general form: whatever the index (append, replace, extend), if the frame list after the store has a first frame with
    analog data of the announced shape and names, and every filled frame has the announced shape, the agreement holds again *)
 Theorem C05_frame_call_general : forall f_key f_tosize f_div f_is_zero,
@@ -374,3 +388,38 @@ Proof.
   - split; assumption.
 Qed.
 Print Assumptions C05_parameter_elsewhere_nonvacuous.
+
+(* non-vacuity: the declared object of the demo (one point, one channel, 100 Hz / 200 Hz, no frame) and a recording of two frames;
+   the agreement after the recording and the stored frames come from the theorem *)
+Definition c05_demo_declared : state := Eval vm_compute in
+  let prate := mkParam nm_RATE [] false TFloat [1] [] [1120403456] [] in
+  let arate := mkParam nm_RATE [] false TFloat [1] [] [1128792064] [] in
+  match step_x init (OPoint [97]) with ROk _ s1 =>
+  match step_x s1 (OAnalog [99]) with ROk _ s2 =>
+  match step_x s2 (OParam nm_POINT prate) with ROk _ s3 =>
+  match step_x s3 (OParam nm_ANALOG arate) with ROk _ s4 => s4 | _ => init end | _ => init end | _ => init end | _ => init end.
+
+Example C05_recording_from_empty_nonvacuous :
+  let f1 := mkFrame [mkPoint [97] 1 2 3 4] [[mkChan [99] 5]; [mkChan [99] 6]] in
+  exists s', run_frames f_key_impl f_tosize_impl f_div_impl f_is_zero_impl [f1; c05_demo_frame] c05_demo_declared = ROk tt s' /\
+             Inv s' /\ frames s' = [f1; c05_demo_frame].
+Proof.
+  intros f1.
+  destruct (run_frames f_key_impl f_tosize_impl f_div_impl f_is_zero_impl [f1; c05_demo_frame] c05_demo_declared) as [[] s'| |] eqn:E;
+    [|vm_compute in E; discriminate|vm_compute in E; discriminate].
+  exists s'. split; [reflexivity|].
+  refine (recording_from_empty_keeps_inv f_key_impl f_tosize_impl f_div_impl f_is_zero_impl f_key_impl_nothrow f_tosize_impl_nothrow
+            f1 [c05_demo_frame] c05_demo_declared s' 1 _ _ _ _ _ _ _ _ _ _ _ E).
+  - vm_compute. reflexivity.
+  - vm_compute. reflexivity.
+  - reflexivity.
+  - vm_compute. reflexivity.
+  - discriminate.
+  - vm_compute. discriminate.
+  - repeat constructor; try (vm_compute; reflexivity); intros sf [<-|[<-|[]]]; vm_compute; reflexivity.
+  - vm_compute. reflexivity.
+  - vm_compute. reflexivity.
+  - vm_compute. reflexivity.
+  - vm_compute. reflexivity.
+Qed.
+Print Assumptions C05_recording_from_empty_nonvacuous.
